@@ -1,0 +1,38 @@
+// +build verif
+
+// Package rand implements a cryptographically secure pseudorandom number
+// generator. In the verif build the bytes can be supplied by a harness.
+package rand
+
+import (
+	"crypto/rand"
+	"sync"
+)
+
+// Reader is the default reader.
+var Reader = rand.Reader
+
+var (
+	verifMu  sync.Mutex
+	verifSrc func(b []byte) bool
+)
+
+// VerifSetSource installs (or, with nil, removes) a function that may fill a
+// request for random bytes itself; it returns false to fall back to
+// crypto/rand. Used to pin initial sequence numbers.
+func VerifSetSource(f func(b []byte) bool) {
+	verifMu.Lock()
+	verifSrc = f
+	verifMu.Unlock()
+}
+
+// Read implements io.Reader.Read.
+func Read(b []byte) (int, error) {
+	verifMu.Lock()
+	f := verifSrc
+	verifMu.Unlock()
+	if f != nil && f(b) {
+		return len(b), nil
+	}
+	return rand.Read(b)
+}
